@@ -130,7 +130,7 @@ PROPS.update({
         "custom": "c17",
         "level": "exploration",
         "rule": "case list: seeded fast_gnp_random_graph (n up to 600), seeded louvain_partitions / louvain_communities on tie-rich graphs (paths, cycles, complete, bipartite, grids, ladders, stars, barbells, plus G(n,p); unweighted, exact, symmetric-pattern, generic and 2^520-scaled weights; seeds incl. u64::MAX, u64::MAX-1, 2^63), and the discrete outputs of non-randomised algorithms (all_pairs distances bits + path sets, components, triangles, generalized degree, bfs partitions). Each case is repeated 10 (30) times in one process - the graph is rebuilt each time so every hash table is re-keyed, and repetitions run under caller-installed rayon pools of 1, 2, 3 and 16 threads - and its canonical result (sets of sets, sorted) must not change; then 3 (6) passes of fresh processes with RAYON_NUM_THREADS in {1,2,16,...} compute a digest per (case, function) and the digests must agree. Non-trivial = every case; distinct = distinct case indexes.",
-        "assumptions": COMMON + ["floating-point outputs of non-randomised algorithms are not part of the cross-process digests (rounding of sums is allowed by the statement); Louvain is only run on unweighted or exact-dyadic weights", "hash iteration order cannot be forced; reach comes from re-keying (every HashMap::new draws new keys) across 10-30 repetitions and 3-6 processes"],
+        "assumptions": COMMON + ["floating-point outputs of non-randomised algorithms are not part of the cross-process digests (rounding of sums is allowed by the statement)", "hash iteration order cannot be forced; reach comes from re-keying (every HashMap::new draws new keys) across 10-30 repetitions and 3-6 processes"],
         "min_reach": {"any": ["reach:louvain-on-tie-rich-graph", "reach:call-under-pool-of-16-threads", "reach:call-under-pool-of-1-threads", "reach:fresh-processes-compared", "cases:kind0", "reach:louvain-with-huge-dyadic-weights"]},
     },
 })
